@@ -278,10 +278,51 @@ def run(model: RepoModel, rep, tier: str):
     from .c07 import _r4_keyword_order
     _r4_keyword_order(model, rep, "C12.R5")
     _r6_names_and_module_tree(model, rep)
+    _r1b_reader_keeps_lines(model, rep)
     from .c07 import check_base_order
     rep.rule("C12.R7", "re-ordering independent top-level class definitions changes nothing: the bases of a class are visited in the order of "
                        "its class statement, never in the order of the class ids", 1)
     check_base_order(model, rep, "C12.R7")
+
+
+def _r1b_reader_keeps_lines(model: RepoModel, rep):
+    """line numbers are those of the file: the text read from the source file reaches the parser (and the preprocessors) without
+    whitespace trimming -- strip()/lstrip() removes leading blank lines and every row number of the file becomes too small"""
+    la = model.module("lang/lang_analysis.py")
+    n = 0
+    for ci in la.classes.values():
+        for f in ci.methods.values():
+            reads = [c for c in walk_no_nested(f.node) if isinstance(c, ast.Call) and isinstance(c.func, ast.Attribute) and c.func.attr == "read" and not c.args]
+            if not reads or not any(isinstance(c, ast.Call) and (call_name(c) or "") == "open" for c in walk_no_nested(f.node)):
+                continue
+            for rd in reads:
+                n += 1
+                key = f"lang/lang_analysis.py::{f.qualname}::`{norm(rd)}`::the source text is parsed as read"
+                enc = enclosing_map(f.node)
+                par = enc.get(id(rd))
+                trimmed = None
+                if isinstance(par, ast.Attribute) and par.attr in ("strip", "lstrip", "splitlines", "expandtabs"):
+                    trimmed = par
+                # or the variable it is bound to is trimmed later
+                tgt = None
+                cur = rd
+                while id(cur) in enc and not isinstance(cur, ast.stmt):
+                    cur = enc[id(cur)]
+                if isinstance(cur, ast.Assign) and isinstance(cur.targets[0], ast.Name):
+                    tgt = cur.targets[0].id
+                    for c in walk_no_nested(f.node):
+                        if isinstance(c, ast.Call) and isinstance(c.func, ast.Attribute) and c.func.attr in ("strip", "lstrip") and isinstance(c.func.value, ast.Name) \
+                                and c.func.value.id == tgt and isinstance(enc.get(id(c)), ast.Assign):
+                            trimmed = c.func
+                if trimmed is not None:
+                    rep.violation("C12.R1", key, "lang/lang_analysis.py", trimmed.lineno,
+                                  f"{f.qualname} trims the text of the source file (`.{trimmed.attr}()`) before it is parsed: blank lines at the top of the file "
+                                  f"vanish, so every statement of that file is reported {'' if trimmed.attr != 'splitlines' else 'possibly '}too high up -- "
+                                  f"inserting blank lines at the top no longer shifts the reported source and sink lines accordingly")
+                else:
+                    rep.holds("C12.R1", key, "lang/lang_analysis.py", rd.lineno, "not trimmed")
+    if not n:
+        raise AnalysisError("lang_analysis.py: the place where a source file is read was not found")
 
 
 def _r6_names_and_module_tree(model: RepoModel, rep):
